@@ -360,15 +360,6 @@ impl<'a> LiveEvents<'a> {
 
                     let tag_s = SfTag::from_optional_cow(&tag);
 
-                    // The parser reports an empty node as the plain scalar `~`, but one that
-                    // carries an anchor as a plain scalar without text. An anchor must not
-                    // change the node: as a mapping key the two would not be the same key.
-                    let val = if val.is_empty() && style == ScalarStyle::Plain && tag.is_none() {
-                        Cow::Borrowed("~")
-                    } else {
-                        val
-                    };
-
                     let ev = Ev::Scalar {
                         value: val,
                         tag: tag_s,
